@@ -26,8 +26,8 @@ func clearNewline(s string) string {
 }
 
 func ExtractFromCell(cell string, line int) string {
-	if line == 0 {
-		// line 0 means the whole cell.
+	if line <= 0 {
+		// line 0 (or a meaningless negative line) means the whole cell.
 		return clearNewline(strings.TrimSpace(cell))
 	}
 
